@@ -22,33 +22,38 @@ type Plan struct {
 
 // Knobs are per-run configuration choices (swarm testing).
 type Knobs struct {
-	Procs           int    `json:"procs,omitempty"`            // value repo code sees for runtime.GOMAXPROCS(0)
-	CardLimit       int    `json:"card_limit,omitempty"`       // dictionary cardinality limit (0 = default)
-	MaxSegFileSize  uint64 `json:"max_seg_file_size,omitempty"` // 0 = default
-	PQS             *bool  `json:"pqs,omitempty"`
-	Aggs            *bool  `json:"aggs,omitempty"` // agile tree
-	LowMem          bool   `json:"low_mem,omitempty"`
-	IdleFlushSecs   int    `json:"idle_flush_secs,omitempty"`
-	MaxWaitSecs     int    `json:"max_wait_secs,omitempty"`
-	QueryTimeoutSec int    `json:"query_timeout_secs,omitempty"`
-	MaxRunning      int    `json:"max_running,omitempty"`
-	RetentionHours  int    `json:"retention_hours,omitempty"`
-	SortCols        map[string][]string `json:"sort_cols,omitempty"` // index -> sort-index columns
-	Sched           bool   `json:"sched,omitempty"`            // seeded scheduler on
-	PreemptPermille int    `json:"preempt_permille,omitempty"` // probability of a forced switch at a yield point
-	DelayPermille   int    `json:"delay_permille,omitempty"`   // fraction of yield sites that hold tasks back (per-run subset)
-	DelayLen        int    `json:"delay_len,omitempty"`        // for how many scheduling decisions
-	MetricsKnobs    map[string]int `json:"metrics_knobs,omitempty"`
-	StatfsFreePct   int    `json:"statfs_free_pct,omitempty"`
+	Procs           int                 `json:"procs,omitempty"`             // value repo code sees for runtime.GOMAXPROCS(0)
+	CardLimit       int                 `json:"card_limit,omitempty"`        // dictionary cardinality limit (0 = default)
+	MaxSegFileSize  uint64              `json:"max_seg_file_size,omitempty"` // 0 = default
+	PQS             *bool               `json:"pqs,omitempty"`
+	Aggs            *bool               `json:"aggs,omitempty"` // agile tree
+	LowMem          bool                `json:"low_mem,omitempty"`
+	IdleFlushSecs   int                 `json:"idle_flush_secs,omitempty"`
+	MaxWaitSecs     int                 `json:"max_wait_secs,omitempty"`
+	QueryTimeoutSec int                 `json:"query_timeout_secs,omitempty"`
+	MaxRunning      int                 `json:"max_running,omitempty"`
+	RetentionHours  int                 `json:"retention_hours,omitempty"`
+	SortCols        map[string][]string `json:"sort_cols,omitempty"`        // index -> sort-index columns
+	Sched           bool                `json:"sched,omitempty"`            // seeded scheduler on
+	PreemptPermille int                 `json:"preempt_permille,omitempty"` // probability of a forced switch at a yield point
+	DelayPermille   int                 `json:"delay_permille,omitempty"`   // fraction of yield sites that hold tasks back (per-run subset)
+	DelayLen        int                 `json:"delay_len,omitempty"`        // for how many scheduling decisions
+	MaxDecisions    int                 `json:"max_decisions,omitempty"`    // decision budget of an incarnation (0: 5 M + 3000 per simulated second of advance)
+	DelaySites      []string            `json:"delay_sites,omitempty"`      // yield sites (substring match) that always hold tasks back
+	MetricsKnobs    map[string]int      `json:"metrics_knobs,omitempty"`
+	StatfsFreePct   int                 `json:"statfs_free_pct,omitempty"`
+	// Orgs: the organisations the node knows (hooks.GlobalHooks.GetIdsConditionHook, the seam the multi-tenant
+	// build uses); empty = the open-source default, organisation 0 only.
+	Orgs []int64 `json:"orgs,omitempty"`
 }
 
 // Incarnation is one process lifetime on the shared data directory.
 type Incarnation struct {
-	Boot    string  `json:"boot"` // "lite" | "full"
-	Ops     []Op    `json:"ops"`
-	Faults  []Fault `json:"faults,omitempty"`
-	Choices []int   `json:"choices,omitempty"` // scheduler choice vector (see simrt)
-	SchedSeed uint64 `json:"sched_seed,omitempty"` // PRNG for choices beyond the vector / map order
+	Boot      string  `json:"boot"` // "lite" | "full"
+	Ops       []Op    `json:"ops"`
+	Faults    []Fault `json:"faults,omitempty"`
+	Choices   []int   `json:"choices,omitempty"`    // scheduler choice vector (see simrt)
+	SchedSeed uint64  `json:"sched_seed,omitempty"` // PRNG for choices beyond the vector / map order
 }
 
 // Fault is a disk-seam fault keyed by the number of the mutating fs call it targets.
@@ -56,8 +61,8 @@ type Fault struct {
 	Kind string `json:"kind"` // crash_after | crash_torn | fail | short | full_after | read_eio
 	At   int    `json:"at"`   // 1-based index of the mutating fs call (or read call for read_eio)
 	N    int    `json:"n,omitempty"`
-	Err  string `json:"err,omitempty"`   // EIO | ENOSPC | EMFILE
-	Path string `json:"path,omitempty"`  // optional substring filter: counts only calls whose path contains it
+	Err  string `json:"err,omitempty"`  // EIO | ENOSPC | EMFILE
+	Path string `json:"path,omitempty"` // optional substring filter: counts only calls whose path contains it
 }
 
 // Op is one operation of the world API. Unused fields are omitted.
@@ -90,15 +95,15 @@ type Op struct {
 
 // Entry is one journal line written by a child when an operation returns.
 type Entry struct {
-	Inc    int             `json:"inc"`
-	Idx    string          `json:"idx"` // op index path, e.g. "3" or "5.1.2" (par op 5, client 1, op 2)
-	Kind   string          `json:"kind"`
-	Phase  string          `json:"phase,omitempty"` // "invoke" | "return" (par clients) | "" (sequential: return)
-	Seq    uint64          `json:"seq"`             // global event sequence number (scheduler decision count)
-	SimMs  int64           `json:"sim_ms"`          // simulated unix millis when the op returned
-	FsOps  int             `json:"fs_ops"`          // mutating fs calls completed so far
-	Err    string          `json:"err,omitempty"`
-	Data   json.RawMessage `json:"data,omitempty"`
+	Inc   int             `json:"inc"`
+	Idx   string          `json:"idx"` // op index path, e.g. "3" or "5.1.2" (par op 5, client 1, op 2)
+	Kind  string          `json:"kind"`
+	Phase string          `json:"phase,omitempty"` // "invoke" | "return" (par clients) | "" (sequential: return)
+	Seq   uint64          `json:"seq"`             // global event sequence number (scheduler decision count)
+	SimMs int64           `json:"sim_ms"`          // simulated unix millis when the op returned
+	FsOps int             `json:"fs_ops"`          // mutating fs calls completed so far
+	Err   string          `json:"err,omitempty"`
+	Data  json.RawMessage `json:"data,omitempty"`
 }
 
 func Load(path string) (*Plan, error) {
